@@ -8,6 +8,7 @@ import (
 	"fmt"
 	"os"
 	"sort"
+	"strconv"
 	"sync"
 	"time"
 
@@ -386,4 +387,61 @@ func AggArgs(specs []AggSpec) []seq.AggregateArgs {
 		args[i] = seq.AggregateArgs{Func: AggFuncOf(s), Quantiles: s.Quantiles, SkipWithoutTimestamp: s.Interval > 0}
 	}
 	return args
+}
+
+// AggOut is the JSON form of one aggregation's final result (what the proxy would return).
+// Floats are carried as strings so that NaN and ±Inf survive JSON.
+type AggOut struct {
+	NotExists int64       `json:"not_exists"`
+	Buckets   []AggBucket `json:"buckets"`
+}
+
+type AggBucket struct {
+	Name      string   `json:"name"`
+	MID       uint64   `json:"mid"`
+	Value     string   `json:"value"`
+	Quantiles []string `json:"quantiles,omitempty"`
+	NotExists int64    `json:"not_exists"`
+}
+
+func fstr(f float64) string { return strconv.FormatFloat(f, 'g', -1, 64) }
+
+func AggOuts(q *seq.QPR, specs []AggSpec) []AggOut {
+	if len(specs) == 0 {
+		return nil
+	}
+	if len(q.Aggs) < len(specs) {
+		// no partial result carried aggregation slots (e.g. no fraction in range): the
+		// proxy pads them to the number of requested aggregations, so do the same
+		padded := *q
+		padded.Aggs = append(append([]seq.AggregatableSamples{}, q.Aggs...), make([]seq.AggregatableSamples, len(specs)-len(q.Aggs))...)
+		q = &padded
+	}
+	res := q.Aggregate(AggArgs(specs))
+	out := make([]AggOut, len(res))
+	for i, r := range res {
+		out[i].NotExists = r.NotExists
+		for _, b := range r.Buckets {
+			ab := AggBucket{Name: b.Name, MID: uint64(b.MID), Value: fstr(b.Value), NotExists: b.NotExists}
+			for _, x := range b.Quantiles {
+				ab.Quantiles = append(ab.Quantiles, fstr(x))
+			}
+			out[i].Buckets = append(out[i].Buckets, ab)
+		}
+	}
+	return out
+}
+
+// ToAggregationResult converts the JSON form back for CompareAgg.
+func (a AggOut) ToAggregationResult() seq.AggregationResult {
+	r := seq.AggregationResult{NotExists: a.NotExists}
+	pf := func(s string) float64 { f, _ := strconv.ParseFloat(s, 64); return f }
+	for _, b := range a.Buckets {
+		ab := seq.AggregationBucket{Name: b.Name, MID: seq.MID(b.MID), Value: pf(b.Value), NotExists: b.NotExists}
+		for _, x := range b.Quantiles {
+			ab.Quantiles = append(ab.Quantiles, pf(x))
+		}
+		r.Buckets = append(r.Buckets, ab)
+	}
+	return r
 }
